@@ -43,8 +43,9 @@ def run(pid, tier):
         with open(cpath, "w") as f:
             for c in cases:
                 f.write(json.dumps(c) + "\n")
+        env = dict(os.environ, VERIF_SHIMDIR=os.path.join(vlib.VERIF, "shim"))
         p = vlib.run_cmd([bins["vh_lib"], "delta-cases", cpath, opath, str(vlib.seed()), tier, copia,
-                          os.path.join(work, "cli")], timeout=3000)
+                          os.path.join(work, "cli")], timeout=6000, env=env)
         if p.returncode != 0:
             raise vlib.ToolError("vh_lib delta-cases failed: " + p.stderr.decode()[-2000:])
         nonconf = 0
@@ -100,7 +101,7 @@ def run(pid, tier):
                     ev.sample(rec)
         ev.add(rule="TLC enumerates all (basis, source) symbol strings up to length 3/4 over 5 symbol classes x B in {1,2}(,4); "
                     "each is expanded to bytes for block sizes 512, 2048, 65536 (all eight on a 5% sample; all eight in thorough) and "
-                    "executed on both engines (+ CLI on a rotating subset). non-trivial = the expected delta has both a copy and a literal. "
+                    "executed on both engines (+ CLI chain, local single-file sync and push / pull single-file sync through the ssh stand-in on a rotating subset); thorough: 512 and 65536 on every case, all eight on every 10th. non-trivial = the expected delta has both a copy and a literal. "
                     "Plus ~770 (quick) seeded large cases validated by TLC over an independent match map.",
                exhaustive=False)
         ev.assumptions += ["BLAKE3 treated as injective; byte equality of literals / patched output observed by the harness",
